@@ -538,6 +538,22 @@ pub struct FaitAccompli1Sampler<F: QuorumSamplingStrategy> {
     k: usize,
 }
 
+/// Number of seats `floor(stake / total_stake * k)` that FA1 hands a validator deterministically.
+///
+/// Computed in integers: `f64` cannot represent the quotient exactly for stakes beyond `2^53`
+/// and rounds `(1.0 / k) * k` below `1.0` for some `k`, either of which miscounts the seats.
+fn guaranteed_seats(stake: Stake, total_stake: Stake, k: u64) -> u64 {
+    if total_stake == Stake::new(0) {
+        return 0;
+    }
+    (u128::from(stake.inner()) * u128::from(k) / u128::from(total_stake.inner())) as u64
+}
+
+/// Stake that `seats` deterministic seats account for: `floor(seats * total_stake / k)`.
+fn stake_of_seats(seats: u64, total_stake: Stake, k: u64) -> Stake {
+    Stake::new((u128::from(seats) * u128::from(total_stake.inner()) / u128::from(k)) as u64)
+}
+
 impl FaitAccompli1Sampler<PartitionSampler> {
     /// Creates a new FA1-F sampler with a variance-reducing partition fallback sampler.
     ///
@@ -548,9 +564,8 @@ impl FaitAccompli1Sampler<PartitionSampler> {
         let mut required_samples = Vec::new();
         let mut validators_truncated_stake = validators.clone();
         for v in &mut validators_truncated_stake {
-            let frac_stake = v.stake.inner() as f64 / total_stake.inner() as f64;
-            let samples = (frac_stake * k as f64).floor() as u64;
-            v.stake -= Stake::new(samples * total_stake.inner() / k);
+            let samples = guaranteed_seats(v.stake, total_stake, k);
+            v.stake -= stake_of_seats(samples, total_stake, k);
             required_samples.extend((0..samples).map(|_| v.id));
         }
         let all_zero = validators_truncated_stake
@@ -580,9 +595,8 @@ impl FaitAccompli1Sampler<IidQuorumSampler<StakeWeightedSampler>> {
         let mut required_samples = Vec::new();
         let mut validators_truncated_stake = validators.clone();
         for v in &mut validators_truncated_stake {
-            let frac_stake = v.stake.inner() as f64 / total_stake.inner() as f64;
-            let samples = (frac_stake * k as f64).floor() as u64;
-            v.stake -= Stake::new(samples * total_stake.inner() / k);
+            let samples = guaranteed_seats(v.stake, total_stake, k);
+            v.stake -= stake_of_seats(samples, total_stake, k);
             required_samples.extend((0..samples).map(|_| v.id));
         }
         let all_zero = validators_truncated_stake
